@@ -145,7 +145,10 @@ class Emitter(object):
             elif self.comments:
                 if not ws and (self.prev == '/' or (self.prev not in self.SAFE_GLUE and r.random() < 0.5)):
                     ws += ' '
-                ws += r.choice(('// line comment\n', '//\n', '// end if; select\n', '// /* \n'))
+                ws += r.choice(('// line comment\n', '//\n', '// end if; select\n', '// /* \n',
+                                # (a line comment ends at the line feed, not at what other conventions end a line with)
+                                '// a\x0cb\n', '// x\u2028 break;\n', '// \x85 return;\n', '// c\x0b d = 1;\n', '// \x1c\x1d\x1e ;\n',
+                                '// \u2029 y = 1;\n'))
             else:
                 ws += ' '
         if not ws.strip(' \t\r\n') and not ws:
